@@ -404,7 +404,12 @@ def _observe(case, rec, out):
         if kind == "resamp":
             res = resample(src, case["target"])
         else:
-            res = compute_spectrogram(src, window_size=case["w"] / case["tden"], hop_size=case["h"] / case["tden"])
+            kw = {}
+            if not case.get("padded", 1):
+                kw["padded"] = False
+            if case.get("bnd", "default") != "default":
+                kw["boundary"] = None if case["bnd"] == "none" else case["bnd"]
+            res = compute_spectrogram(src, window_size=case["w"] / case["tden"], hop_size=case["h"] / case["tden"], **kw)
         out["n"] = int(res.sizes["time"])
         out["axes"] = [_axis(res.time.values, res.time.attrs, ref0)]
         if kind == "spec":
@@ -421,10 +426,10 @@ def _observe(case, rec, out):
 
 
 # ----------------------------------------------------------------------------- larger universes (random, seeded)
-def _case(kind, fr, te, tden, ch, n, s=0, e=0, src="clip", w=0, h=0, target=0, fmt="PCM_16", pre=0, hist="none", n2=None, base2=0, decl=0, ops=()):
+def _case(kind, fr, te, tden, ch, n, s=0, e=0, src="clip", w=0, h=0, target=0, fmt="PCM_16", pre=0, hist="none", n2=None, base2=0, decl=0, ops=(), padded=1, bnd="default"):
     return {"kind": kind, "fr": fr, "te": list(te), "tden": tden, "ch": ch, "N": n, "s": s, "e": e,
             "src": src, "w": w, "h": h, "target": target, "pre": pre, "hist": hist, "N2": n if n2 is None else n2,
-            "base2": base2, "decl": decl, "ops": [list(o) for o in ops], "fmt": fmt}
+            "base2": base2, "decl": decl, "ops": [list(o) for o in ops], "padded": padded, "bnd": bnd, "fmt": fmt}
 
 
 def _hist(rng, n):
@@ -603,7 +608,8 @@ def random_cases(rng, tier):
                         rng.randrange(w + 1, 2 * w + 2), w + max(1, int(per))])          # also hops longer than the window
         if w * sr >= 2**30:
             continue
-        yield _case("spec", fr, te, tden, rng.choice([1, 2]), n, s, e, src=src, w=w, h=h, pre=_pre(rng, sr, n))
+        pd, bnd = rng.choice([(1, "default")] * 4 + [(0, "default"), (0, "zeros"), (0, "even"), (1, "even"), (1, "zeros"), (0, "none"), (1, "none")])
+        yield _case("spec", fr, te, tden, rng.choice([1, 2]), n, s, e, src=src, w=w, h=h, pre=_pre(rng, sr, n), padded=pd, bnd=bnd)
     # the anticipated witness (DESIGN F13): 12.3 ms window, 4.1 ms hop at 22050 Hz, and relatives
     for fr, tden, w, h, n in [(22050, 10000, 123, 41, 22050), (44100, 10000, 100, 33, 30000), (8000, 1000, 10, 3, 4000),
                               (48000, 100000, 1234, 411, 24000)]:
